@@ -1,4 +1,4 @@
-From Verif Require Import Lib.Base Mkvs.Trie Mkvs.BitsProofs Mkvs.AlistProofs Mkvs.TrieProofs Mkvs.Overlay Mkvs.OverlayProofs Mkvs.Key Mkvs.Iter Mkvs.IterProofs Mkvs.Lazy Mkvs.LazyProofs Mkvs.IterLift Mkvs.Step Mkvs.StepProofs.
+From Verif Require Import Lib.Base Mkvs.Trie Mkvs.BitsProofs Mkvs.AlistProofs Mkvs.TrieProofs Mkvs.Overlay Mkvs.OverlayProofs Mkvs.Key Mkvs.Iter Mkvs.IterProofs Mkvs.Lazy Mkvs.LazyProofs Mkvs.IterLift Mkvs.Step Mkvs.StepProofs Mkvs.Fork Mkvs.ForkProofs.
 
 (* C03 - MKVS tree and overlays behave as an ordered map.
    [s_run] = the model of the tree object (pending write log, Insert, Remove,
@@ -185,3 +185,50 @@ Theorem eviction_f1_transient_refuted :
                contents (view res) = [([0; 1; 0], [2])]).
 Proof. exact StepProofs.eviction_f1_transient_refuted. Qed.
 Print Assumptions eviction_f1_transient_refuted.
+
+(* ---- treeOverlay.Copy (Mkvs/Fork.v): an overlay A and its copy B over the same
+   inner stack.  Every answer on either side is the ordered map's answer for that
+   side's view (its own writes and removals over the shared inner map); local
+   operations (insert, remove, remove-existing, get, iterate) on one side leave
+   every observation (Get and Seek results for every key) of the other side
+   unchanged; right after Copy both sides observe the same map.  A commit of one
+   side writes into the shared inner tree and is seen by the other side through
+   its own delta (that is the specified behaviour, covered by fork_refines_map). ---- *)
+Theorem fork_refines_map :
+  forall ops fs, f_inv fs -> f_ok_run fs ops ->
+    snd (f_run fs ops) = f_spec_run fs ops /\ f_inv (fst (f_run fs ops)).
+Proof. exact ForkProofs.fork_refines_map. Qed.
+Print Assumptions fork_refines_map.
+
+Theorem fork_run_refines_init :
+  forall (use_log : bool) ops, f_ok_run ((t_init use_log, []), None) ops ->
+    snd (f_run ((t_init use_log, []), None) ops) = f_spec_run ((t_init use_log, []), None) ops.
+Proof. exact ForkProofs.fork_run_refines_init. Qed.
+Print Assumptions fork_run_refines_init.
+
+Theorem copy_independent_a :
+  forall fs o k, local_fb o -> obs_a (fst (f_step fs o)) k = obs_a fs k.
+Proof. exact ForkProofs.copy_independent_a. Qed.
+Print Assumptions copy_independent_a.
+
+Theorem copy_independent_b :
+  forall fs o k, local_fa o -> snd (fst fs) <> [] -> obs_b (fst (f_step fs o)) k = obs_b fs k.
+Proof. exact ForkProofs.copy_independent_b. Qed.
+Print Assumptions copy_independent_b.
+
+Theorem copy_same_view :
+  forall fs k, snd fs = None -> snd (fst fs) <> [] ->
+    obs_b (fst (f_step fs FFork)) k = Some (obs_a fs k).
+Proof. exact ForkProofs.copy_same_view. Qed.
+Print Assumptions copy_same_view.
+
+Theorem copy_independent_a_run :
+  forall ops fs k, Forall local_fb ops -> obs_a (fst (f_run fs ops)) k = obs_a fs k.
+Proof. exact ForkProofs.copy_independent_a_run. Qed.
+Print Assumptions copy_independent_a_run.
+
+Theorem copy_independent_b_run :
+  forall ops fs k, Forall local_fa ops -> snd (fst fs) <> [] ->
+    obs_b (fst (f_run fs ops)) k = obs_b fs k.
+Proof. exact ForkProofs.copy_independent_b_run. Qed.
+Print Assumptions copy_independent_b_run.
